@@ -420,7 +420,7 @@ pub fn run_replays<P: Property>(p: &P, tier: Tier) -> ShardResult {
                     e.0 += 1;
                 }
                 for x in un {
-                    res.violations.push(Violation { sig: format!("regression-input:{}", x.sig), msg: x.msg.clone(), replay: f.to_string_lossy().to_string() });
+                    res.violations.push(Violation { sig: if strict { format!("regression-input:{}", x.sig) } else { x.sig.clone() }, msg: x.msg.clone(), replay: f.to_string_lossy().to_string() });
                 }
             }
             Err(e) => {
